@@ -1,4 +1,6 @@
 """C02 - the discrete-time online monitor equals offline evaluation at every step."""
+from hypothesis import strategies as st
+
 from .. import formula as F
 from ..common import dt_cases, std_candidates, feature_labels, fmt_vals
 from ..formula import Profile, from_json, show
@@ -114,7 +116,23 @@ def strat_floats(tier):
     return dt_cases(_profile(tier, var_bound=1e6, max_depth=4), max_n=10)
 
 
+@st.composite
+def strat_near_twins_(draw, tier):
+    """g JOIN g' where g' differs from g in one label: operators are keyed by printed name, near-identical names must not
+    share state or cached values."""
+    from ..common import near_twin
+    c = draw(dt_cases(_profile(tier, max_depth=3, nvars=2), max_n=10))
+    g = from_json(c['formula'])
+    g2 = draw(near_twin(g))
+    if g2 is None or g2 == g:
+        g2 = ('un', 'not', g)
+    join = draw(st.sampled_from(['and', 'or', 'implies', 'since']))
+    c['formula'] = ('bin', join, g, g2) if draw(st.booleans()) else ('bin', join, g2, g)
+    return c
+
+
 LANES = [
+    Lane('near_twins', lambda tier: strat_near_twins_(tier), check, 2000, 30000, std_candidates),
     Lane('floats', strat_floats, check, 1000, 15000, std_candidates),
     Lane('long', strat_long, check, 300, 5000, std_candidates),
     Lane('main', strat_main, check, 5000, 60000, std_candidates),
